@@ -119,6 +119,15 @@ theorem duplicate_key_fails (hf : HF) (vs declared : Nat) (m : List (Bytes × By
     apply this.1
     simp
 
+/-- **insertion-order independence**: any permutation of the same inserts gives the same sealed index
+    (hence, through `CI.encode`, the byte-identical file; the real builder's two sealings are compared byte for
+    byte by the `reseal` op of the correspondence run). Also covers "sealing the same inserts twice". -/
+theorem build_perm (hf : HF) (vs declared : Nat) (m : List (Bytes × Bytes)) (kvs kvs' : List KV) (hp : kvs.Perm kvs') :
+    buildA hf vs declared m kvs = buildA hf vs declared m kvs' ∧
+    (buildA hf vs declared m kvs).toOption.map encode = (buildA hf vs declared m kvs').toOption.map encode := by
+  have := buildA_perm hf vs declared m kvs kvs' hp
+  exact ⟨this, by rw [this]⟩
+
 /-- parameters the format cannot hold are refused by the constructor (after the `fix:` commits: value sizes
     above 255 − HashSize were accepted by the pinned tree and made `Seal` panic) -/
 theorem bad_params_fail (hf : HF) (vs declared : Nat) (m : List (Bytes × Bytes)) (kvs : List KV)
